@@ -2,6 +2,7 @@ import Req.Driver.Proto
 import Req.C02.RespSM
 import Req.C02.H1Body
 import Req.C02.H1Msg
+import Req.C02.H3Recv
 /-! Driver lanes of C02. -/
 namespace Req.Driver.L.C02
 open Req.Proto Req.C02
@@ -147,8 +148,49 @@ def laneH1Msg : List String → String
     | _, _, _ => "bad-op"
   | _ => "bad-op"
 
+def h3ErrStr : Option H3Err → String
+  | none => "ok"
+  | some .eof => "eof" | some .reset => "reset" | some .unexpectedEOF => "unexpectedEOF"
+  | some .frameUnexpected => "frameUnexpected" | some .firstNotHeaders => "firstNotHeaders"
+  | some .headersTooLarge => "headersTooLarge" | some .dataAfterTrailers => "dataAfterTrailers"
+  | some .headersAfterTrailers => "headersAfterTrailers" | some .tooMuchData => "tooMuchData"
+  | some .invalidFields => "invalidFields" | some .tooMany1xx => "tooMany1xx"
+  | some .noFieldList => "noFieldList" | some .stuck => "stuck"
+
+def decodeKV (s : String) : Option (Bytes × Bytes) :=
+  match s.splitOn ":" with
+  | [k, v] => do let k ← decodeHex k; let v ← decodeHex v; pure (k, v)
+  | _ => none
+
+def decodeFields (s : String) : Option (List (Bytes × Bytes)) :=
+  if s == "-" then some [] else (s.splitOn ",").mapM decodeKV
+
+def decodeFieldLists (s : String) : Option (List (List (Bytes × Bytes))) :=
+  if s == "none" then some [] else (s.splitOn "/").mapM decodeFields
+
+/-- `c02h3recv <segs> <fin> <fieldlists> <maxHeaderBytes> <reads>` →
+`status=… hdr=… n=… err=… data=… trailer=…` or `error:<e>` -/
+def laneH3Recv : List String → String
+  | [segs, fin, fls, maxh, reads] =>
+    match decodeList segs, parseNetEnd fin, decodeFieldLists fls, maxh.toNat?, decodeNatList reads with
+    | some segs, some fin, some fls, some maxh, some reads =>
+      let s0 : H3Stream := { net := { segs := segs, fin := fin }, remInFrame := 0, parsedTrailer := false,
+                             trailer := none, fieldLists := fls, maxHeaderBytes := maxh }
+      match s0.readFinalResponse 7 0 with
+      | (.error e, _) => "error:" ++ h3ErrStr (some e)
+      | (.ok h, s1) =>
+        let (rs, b') := (H3Body.new h s1).runReads reads
+        let lastErr := match rs.getLast? with | some (_, e) => e | none => none
+        "status=" ++ toString h.status ++ " hdr=" ++ kvStr h.fields ++
+          " n=" ++ encodeNatList (rs.map fun (d, _) => d.length) ++ " err=" ++ h3ErrStr lastErr ++
+          " data=" ++ encodeHex (rs.map (·.1)).flatten ++
+          " trailer=" ++ kvStr (match b'.str.trailer with | some t => t | none => [])
+    | _, _, _, _, _ => "bad-op"
+  | _ => "bad-op"
+
 def lanes : List (String × (List String → String)) := [
   ("c02ops", laneOps),
+  ("c02h3recv", laneH3Recv),
   ("c02h1msg", laneH1Msg),
   ("c02h1body", laneH1Body)
 ]
